@@ -7,13 +7,15 @@ VERIF = os.path.dirname(os.path.dirname(os.path.abspath(__file__)))
 # pid -> (technique, level text, level note, design section)
 CLAIMED = {
     'C14': ('Coq proof: list+dict refinement to a plain list, invariant by induction over op histories; step-by-step correspondence',
-            'Machine-checked theorems over a faithful Gallina model of IndexedList: the dict/list coherence invariant is preserved by '
-            'every mutator and holds in every reachable state (induction over histories, any length, colliding ids), the list component '
-            'behaves as a plain list, failed operations are no-ops. The model is tied to the code by running both on the same histories '
-            'and comparing every step inside Coq; a direct oracle evaluates the property clauses on the implementation.',
+            'Machine-checked theorems over a faithful Gallina model of IndexedList: the dict/list coherence invariant (the id maps to the last '
+            'object of the list carrying it) is preserved by every mutator and holds in every reachable state (induction over histories, any '
+            'length, colliding ids, bulk/lazy/failing argument forms), the list component behaves as a plain list, failed operations are '
+            'no-ops. The model is tied to the code by running both on the same histories and comparing every step inside Coq; a direct oracle '
+            'evaluates the property clauses on the implementation (also on every list object the attribute ever returned, with falsy '
+            'elements, with another document\'s live list adopted, and on histories run without any look-up between operations).',
             'Trusts the Coq kernel/vm_compute, the hand-written model (checked by correspondence on every run), the harness. '
-            'Slices and sort() are outside the property\'s operation list.',
-            '7/C14'),
+            'Slices and sort() are outside the property\'s operation list; histories without intermediate look-ups are oracle-only.',
+            '7/C14 and 12'),
 }
 
 NOT_YET = {}
